@@ -522,7 +522,7 @@ fn listen_closed(d: &mut Delta, rng: &mut impl Rng) {
 
 fn run(env: &Env, k: u64, d: &mut Delta) {
     let mut rng = scenario_rng("C17", env.seed, k);
-    for case in 0..env.tier.pick(150, 300) {
+    for case in 0..env.tier.pick3(150, 300, 2) {
         scenario(env, k, case, &mut rng, d);
     }
     listen_closed(d, &mut rng);
